@@ -360,7 +360,8 @@ theorem selected_eq_sampled_eq_exported (g : F → F) (hg : ∀ x, 0 < g x) (hm 
   refine ⟨eval_or_hard_is_onehot_at_argmax g hg hm s hc hok hT hen hmode noise j a ha hne,
     ?_, ?_, rfl, argmax_lt_length a hne⟩
   · simp [step, selectedIdx, ha]
-  · simp [step, selectedPrecision, selectedIdx, ha]
+  · unfold selectedPrecision selectedIdx
+    simp [step, ha]
 
 /-- **per-channel export**: the exported sub-layers partition the channels by selected precision —
 every channel sits in the group of the precision `summary()` reports for it, in no other, and no
@@ -372,21 +373,25 @@ theorem export_groups_partition (precs : List Int) (α : List (List F)) :
     (∀ p chans, (p, chans) ∈ exportGroups precs α → ∀ c ∈ chans,
         c < α.length ∧ (selectedPrecision precs α).getD c 0 = p) := by
   have hlen : (selectedPrecision precs α).length = α.length := by
-    simp [selectedPrecision, selectedIdx]
+    unfold selectedPrecision selectedIdx
+    simp only [List.length_map]
+  unfold exportGroups
+  simp only []
+  generalize selectedPrecision precs α = sel at hlen ⊢
   refine ⟨?_, ?_, ?_⟩
-  · simp only [exportGroups, List.map_map, Function.comp_def, List.map_id']
+  · simp only [List.map_map, Function.comp_def, List.map_id']
     exact firstSeen_nodup _
   · intro c hc
-    refine ⟨_, List.mem_map.mpr ⟨(selectedPrecision precs α).getD c 0, ?_, rfl⟩, ?_⟩
+    refine ⟨_, List.mem_map.mpr ⟨sel.getD c 0, ?_, rfl⟩, ?_⟩
     · rw [mem_firstSeen]
-      have hc' : c < (selectedPrecision precs α).length := by rw [hlen]; exact hc
-      have : (selectedPrecision precs α).getD c 0 = (selectedPrecision precs α)[c] := by
+      have hc' : c < sel.length := by rw [hlen]; exact hc
+      have : sel.getD c 0 = sel[c] := by
         simp [List.getD_eq_getElem?_getD, List.getElem?_eq_getElem hc']
       rw [this]
       exact List.getElem_mem _
     · simp [hlen, hc]
   · intro p chans hmem c hcm
-    simp only [exportGroups, List.mem_map] at hmem
+    simp only [List.mem_map] at hmem
     obtain ⟨q, _, hq⟩ := hmem
     cases hq
     simpa [hlen] using hcm
